@@ -11,45 +11,45 @@ TB = ('Trusted: TLC; spec/*.tla; the harness (materialise / project / snapshot, 
 
 CHECKS = {
  'C01': ('cmdspec', 'TLC on Trash.tla + TLC-generated transition tests on the real trash-put',
-         'TLC checks Conservation / PutVolumeOK / PutIndependence on spec/Trash.tla and enumerates the put transitions of the configuration lattice (and of trash directories that already hold same-named entries, orphans, strays, junk); every executed edge is a real trash-put on a real file system whose projected post-state (objects recognised by digest of bytes, tree, links, modes, mtimes) must equal the specification post-state, with the operation trace showing no successful mutation outside the trash for a failed argument. Model checking is the right level because the property is a universally quantified frame law over spellings x kinds x layouts.', '5 C01'),
+         'TLC checks Conservation / PutVolumeOK / PutIndependence on spec/Trash.tla and enumerates the put transitions of the configuration lattice (and of trash directories that already hold same-named entries, orphans, strays, junk); every executed edge is a real trash-put on a real file system whose projected post-state (objects recognised by digest of bytes, tree, links, modes, mtimes) must equal the specification post-state, with the operation trace showing no successful mutation outside the trash for a failed argument. Model checking is the right level because the property is a universally quantified frame law over spellings x kinds x layouts.', '6 C01'),
  'C02': ('cmdspec', 'TLC-simulated histories replayed with real commands + TLC trace validation (TrashTrace)',
-         'Behaviours of Sim_Trash.tla are replayed step by step with the real trash-put / trash-restore / trash-rm / trash-empty; after every step the projection must equal the behaviour state; observed steps are re-judged by TLC against Trash.tla (TrashTrace). Round trip = identical digest at the identical location.', '5 C02'),
+         'Behaviours of Sim_Trash.tla are replayed step by step with the real trash-put / trash-restore / trash-rm / trash-empty; after every step the projection must equal the behaviour state; observed steps are re-judged by TLC against Trash.tla (TrashTrace). Round trip = identical digest at the identical location.', '6 C02'),
  'C04': ('opspec', 'TLC on PutOps.tla (all interleavings of 2-3 processes) + lock-step schedules of real trash-put processes: every observed state judged by TLC (FsTrace), every operation trace validated by TLC as a behaviour of PutOps (PutOpsTrace)',
-         'PutOps.tla is checked exhaustively by TLC (NoOverwrite, UniqueOwnership, InfoBeforePayload, NothingLost, FinalStateIsC01, AllSucceed, PreKept, Termination). Real processes are run under every schedule with up to 2 (thorough: 3, sampled) pre-emptions at operation granularity; the state after every operation is projected and TLC evaluates the same invariants on it; plus 130+ sequential same-named puts. Model checking is the level the schedule quantifier needs.', '5 C04'),
+         'PutOps.tla is checked exhaustively by TLC (NoOverwrite, UniqueOwnership, InfoBeforePayload, NothingLost, FinalStateIsC01, AllSucceed, PreKept, Termination). Real processes are run under every schedule with up to 2 (thorough: 3, sampled) pre-emptions at operation granularity; the state after every operation is projected and TLC evaluates the same invariants on it; plus 130+ sequential same-named puts. Model checking is the level the schedule quantifier needs.', '6 C04'),
  'C05': ('opspec', 'TLC invariants of PutOps.tla in every reachable state + kill (process exit, and KeyboardInterrupt before / on return) of the real trash-put at every operation, judged by TLC (FsTrace)',
-         'InfoBeforePayload and NothingLost are invariants of every reachable state of PutOps.tla; the real trash-put is killed before each of its operations (all of them, incl. the per-file steps of the cross-volume copy + delete) in 18 scenarios (incl. long names and several arguments in one invocation), also by Ctrl-C delivered before and on the return of each operation, and TLC evaluates the invariants on each post-kill on-disk state.', '5 C05'),
+         'InfoBeforePayload and NothingLost are invariants of every reachable state of PutOps.tla; the real trash-put is killed before each of its operations (all of them, incl. the per-file steps of the cross-volume copy + delete) in 18 scenarios (incl. long names and several arguments in one invocation), also by Ctrl-C delivered before and on the return of each operation, and TLC evaluates the invariants on each post-kill on-disk state.', '6 C05'),
  'C17': ('opspec', 'TLC on PutOps.tla with one-shot and persistent faults (safety + Termination) + errno injection at every operation of the real trash-put, judged by TLC (FsTrace)',
-         'Faults are actions of PutOps.tla; TLC checks FinalStateIsC01 and Termination with 1-2 one-shot faults and sticky faults. The real trash-put is run with each errno injected at each operation, one-shot and sticky (thorough: sampled pairs); termination within an operation budget and the final state (TLC: FinalStateIsC01, NothingLost, NoOverwrite) are checked. Two known findings.', '5 C17'),
+         'Faults are actions of PutOps.tla; TLC checks FinalStateIsC01 and Termination with 1-2 one-shot faults and sticky faults. The real trash-put is run with each errno injected at each operation, one-shot and sticky (thorough: sampled pairs); termination within an operation budget and the final state (TLC: FinalStateIsC01, NothingLost, NoOverwrite) are checked. Two known findings.', '6 C17'),
  'C06': ('cmdspec', 'TLC-generated restore transitions over occupied destinations, run on the real trash-restore',
-         'TLC enumerates restore edges with the destination free or occupied by each kind, each kind of trashed entry, one- and two-index replies, with and without --overwrite; the real run must end in one of the specification post-states (refusal leaves occupant and entry untouched; overwrite replaces a non-directory); entries written by other implementations (any Path spelling, trailing slashes) with an occupied location are really restored and TLC (FunTrace) judges that nothing moved.', '5 C06'),
+         'TLC enumerates restore edges with the destination free or occupied by each kind, each kind of trashed entry, one- and two-index replies, with and without --overwrite; the real run must end in one of the specification post-states (refusal leaves occupant and entry untouched; overwrite replaces a non-directory); entries written by other implementations (any Path spelling, trailing slashes) with an occupied location are really restored and TLC (FunTrace) judges that nothing moved.', '6 C06'),
  'C07': ('cmdspec', 'TLC enumeration of the configuration lattice + real trash-put with operation trace',
-         'ChosenDir of Trash.tla is the decision table; TLC enumerates the lattice and every edge is executed; the entry must land in the prescribed directory, created directories must be 0700, the move must be exactly one rename unless both fallback switches are on.', '5 C07'),
+         'ChosenDir of Trash.tla is the decision table; TLC enumerates the lattice and every edge is executed; the entry must land in the prescribed directory, created directories must be 0700, the move must be exactly one rename unless both fallback switches are on.', '6 C07'),
  'C08': ('cmdspec', 'TLC invariant InsecureFrozen + transition tests of all five commands on every .Trash state',
-         'InsecureFrozen is checked by TLC on Trash.tla; all five real commands are run on every state of $topdir/.Trash with a populated .Trash/$uid and must leave it as the specification says, trash-list naming the skipped directory.', '5 C08'),
+         'InsecureFrozen is checked by TLC on Trash.tla; all five real commands are run on every state of $topdir/.Trash with a populated .Trash/$uid and must leave it as the specification says, trash-list naming the skipped directory.', '6 C08'),
  'C09': ('cmdspec', 'TLC-simulated histories replayed with real commands, trash-list compared after every step',
-         'ListIsBag is a TLC invariant of Trash.tla; simulated histories are replayed with real commands and after every step real trash-list must print exactly the bag of the specification state; observed steps are validated by TLC (TrashTrace).', '5 C09'),
+         'ListIsBag is a TLC invariant of Trash.tla; simulated histories are replayed with real commands and after every step real trash-list must print exactly the bag of the specification state; observed steps are validated by TLC (TrashTrace).', '6 C09'),
  'C10': ('cmdspec', 'TLC-generated trash-empty transitions at the DAYS boundary on the real command',
-         'EmptyApply/Expired of Trash.tla define the purge set; TLC enumerates dates exactly DAYS days ago and one second either side, undated, future, orphans, strays, in three kinds of trash directory; the real trash-empty must remove exactly that set and keep the rest byte-identical.', '5 C10'),
+         'EmptyApply/Expired of Trash.tla define the purge set; TLC enumerates dates exactly DAYS days ago and one second either side, undated, future, orphans, strays, in three kinds of trash directory; the real trash-empty must remove exactly that set and keep the rest byte-identical.', '6 C10'),
  'C11': ('cmdspec', 'TLC action property PurgeFrame + transition tests with link payloads and operation-trace frame check',
-         'PurgeFrame is checked by TLC; trash-empty and trash-rm are run on trashes whose payloads are links / trees with outside links; everything outside files/ and info/ must be unchanged and the traced mutating operations must all lie inside them.', '5 C11'),
+         'PurgeFrame is checked by TLC; trash-empty and trash-rm are run on trashes whose payloads are links / trees with outside links; everything outside files/ and info/ must be unchanged and the traced mutating operations must all lie inside them.', '6 C11'),
  'C12': ('cmdspec', 'TLC-generated trash-rm transitions on the real command',
-         'RmApply/Matches define the removed set; all generated cases (pattern classes x trashes with equal base names in different directories and volumes) are executed with names from a pool containing glob metacharacters; the byte-level matcher is covered by the function layer (Glob.tla).', '5 C12'),
+         'RmApply/Matches define the removed set; all generated cases (pattern classes x trashes with equal base names in different directories and volumes) are executed with names from a pool containing glob metacharacters; the byte-level matcher is covered by the function layer (Glob.tla).', '6 C12'),
  'C13': ('cmdspec', 'TLC-generated trash-restore transitions (scope x sort x reply) on the real command',
-         'IsListing / RestoreApply define the allowed listings and the restored set; TLC prints every allowed (listing, post-state) for a (state, operation) and the observation must be one of them; scope is tested at component boundaries with prefix-sibling names.', '5 C13'),
+         'IsListing / RestoreApply define the allowed listings and the restored set; TLC prints every allowed (listing, post-state) for a (state, operation) and the observation must be one of them; scope is tested at component boundaries with prefix-sibling names.', '6 C13'),
  'C14': ('cmdspec', 'TLC action property NoConsentNoChange + dry-run / consent transition tests',
-         'The dry run must leave the projection unchanged and print exactly the set the specification removes without --dry-run; negative replies (pool incl. empty and end of input, pipe and pty) must change nothing. One known finding (printed path of an absent payload).', '5 C14'),
+         'The dry run must leave the projection unchanged and print exactly the set the specification removes without --dry-run; negative replies (pool incl. empty and end of input, pipe and pty) must change nothing. One known finding (printed path of an absent payload).', '6 C14'),
  'C15': ('opspec', 'TLC on PurgeOps.tla (crash + re-run) + kill of the real restore / empty / rm before every operation, judged by TLC (PurgeTrace) + whole runs validated by TLC as behaviours of PurgeOps (PurgeOpsTrace); the safety invariants also follow from an inductive invariant discharged by Apalache',
-         'InfoLast, RestoreNeverLoses, FrameOK, DoneOK and RerunCompletes are checked by TLC on PurgeOps.tla including crashes with re-runs; the real commands are killed before each of their operations, TLC evaluates the invariants on each post-kill state, the command is run again and the completed purge is checked; the sequence of on-disk states after every single operation of an uninterrupted run must be a behaviour of PurgeOps.tla (payload before info, copy before delete).', '5 C15'),
+         'InfoLast, RestoreNeverLoses, FrameOK, DoneOK and RerunCompletes are checked by TLC on PurgeOps.tla including crashes with re-runs; the real commands are killed before each of their operations, TLC evaluates the invariants on each post-kill state, the command is run again and the completed purge is checked; the sequence of on-disk states after every single operation of an uninterrupted run must be a behaviour of PurgeOps.tla (payload before info, copy before delete).', '6 C15'),
  'C16': ('cmdspec', 'TLC action property PutIndependence + argument-list transition tests',
-         'PutIndependence is checked by TLC; lists of 2 and 3 arguments in every order are run; the state must be PutFold\'s, exit 0 iff no failure, stderr names each failed argument.', '5 C16'),
+         'PutIndependence is checked by TLC; lists of 2 and 3 arguments in every order are run; the state must be PutFold\'s, exit 0 iff no failure, stderr names each failed argument.', '6 C16'),
  'C18': ('cmdspec', 'TLC-generated put transitions over link kinds x every spelling, plus simulated round trips',
-         'Arguments that are links / dangling links are trashed under every spelling incl. trailing slashes; the payload must be the link itself, targets untouched, one rename; simulated histories restore them.', '5 C18'),
+         'Arguments that are links / dangling links are trashed under every spelling incl. trailing slashes; the payload must be the link itself, targets untouched, one rename; simulated histories restore them.', '6 C18'),
  'C03': ('functions', 'TLC-checked codec laws (TrashInfo.tla) + TLC evaluation of WellFormed / Meaning on bytes written and read back by the real commands',
-         'The codec laws are checked exhaustively by TLC over a 16-byte alphabet; real trash-put writes .trashinfo files for random byte-string locations (every byte 1-255 except /, long names, deep paths, all alphabet paths) and TLC evaluates WellFormed on the written bytes; what trash-list / trash-restore / trash-rm show for those files is checked by TLC against Meaning.', '5 C03'),
+         'The codec laws are checked exhaustively by TLC over a 16-byte alphabet; real trash-put writes .trashinfo files for random byte-string locations (every byte 1-255 except /, long names, deep paths, all alphabet paths) and TLC evaluates WellFormed on the written bytes; what trash-list / trash-restore / trash-rm show for those files is checked by TLC against Meaning.', '6 C03'),
  'C20': ('functions', 'four-way differential of the readers on generated foreign .trashinfo contents, judged by TLC against Meaning / Expired / RmMatches',
-         'Foreign contents from line templates are planted in every kind of trash directory; the path/date trash-list shows, the path/date trash-restore shows, trash-rm on the exact / one-byte-different path and trash-empty DAYS at the date boundary, and the place where a real trash-restore puts the entry, are observed on the real commands and each observation is judged by TLC evaluating the TLA+ operators on the same bytes. One known finding (relative Path in the home trash).', '5 C20'),
+         'Foreign contents from line templates are planted in every kind of trash directory; the path/date trash-list shows, the path/date trash-restore shows, trash-rm on the exact / one-byte-different path and trash-empty DAYS at the date boundary, and the place where a real trash-restore puts the entry, are observed on the real commands and each observation is judged by TLC evaluating the TLA+ operators on the same bytes. One known finding (relative Path in the home trash).', '6 C20'),
  'C19': ('cmdspec', 'TLC invariant JunkIsolation + transition tests of the four readers with malformed neighbours',
-         'JunkIsolation (effect on entries = effect with the malformed ones removed) is a TLC invariant; the four real reading commands are run on every subset of malformed neighbours under a permuted directory order and must reach the specification state.', '5 C19'),
+         'JunkIsolation (effect on entries = effect with the malformed ones removed) is a TLC invariant; the four real reading commands are run on every subset of malformed neighbours under a permuted directory order and must reach the specification state.', '6 C19'),
 }
 
 checks = []
@@ -82,7 +82,7 @@ m = {
    {'name': 'cmdspec', 'path': 'spec/Trash.tla', 'serves_properties': sorted(k for k, v in CHECKS.items() if v[0] == 'cmdspec'),
     'kind_free_text': 'command-level TLA+ specification (Trash.tla) checked by TLC; Gen_Trash / Sim_Trash generate transitions and behaviours that harness/tt.py executes with the real commands; TrashTrace.tla lets TLC judge observed steps'},
    {'name': 'opspec', 'path': 'spec/PutOps.tla', 'serves_properties': sorted(k for k, v in CHECKS.items() if v[0] == 'opspec'),
-    'kind_free_text': 'operation-level TLA+ specifications (PutOps / PurgeOps) with interleaving, crash and fault actions; harness/shim.py schedules, kills and faults the real processes; FsTrace / PutOpsTrace validate the recorded traces'},
+    'kind_free_text': 'operation-level TLA+ specifications (PutOps / PurgeOps) with interleaving, crash and fault actions; harness/shim.py schedules, kills and faults the real processes; FsTrace / PurgeTrace judge every observed state; PutOpsTrace / PutStateTrace / PurgeOpsTrace validate recorded runs as behaviours of the design; PutEmpty covers trash-put next to trash-empty; an inductive invariant of PurgeOps is discharged by Apalache'},
    {'name': 'functions', 'path': 'spec/TrashInfo.tla', 'serves_properties': sorted(k for k, v in CHECKS.items() if v[0] == 'functions'),
     'kind_free_text': 'pure-function TLA+ modules (TrashInfo, Dates, Glob, Indexes) evaluated by TLC on bytes observed from the real commands (FunTrace)'},
  ],
